@@ -19,6 +19,12 @@ role "kex"  (tested: client verifying the server's signature over H)
     signature of the negotiated algorithm -, from exchange k on the key object lies as above.
     "The client accepts a key exchange only if ..." holds for every exchange of a session, and the
     negotiated algorithm is that of the exchange in question.
+    x the API the client is ENTERED through (configuration): start_client(), Transport.connect(hostkey=<expected
+    key>) - which narrows the host key algorithms to those of the expected key - or Transport.connect(); the enabled
+    set E is given through the documented `disabled_algorithms={"keys": ...}` in every variant.
+    x an honest server that offers ONLY a host key algorithm the client has DISABLED (base(X) not in E; genuine key,
+    genuine signature of X): "the algorithm must be one the verifying side has enabled" - nothing may be negotiated,
+    the client ends the handshake without NEWKEYS whatever API it was entered through.
 role "auth" (tested: server verifying a publickey USERAUTH_REQUEST)
     declared algorithm D (same six names) x signature algorithm Y x the server's enabled
     `pubkeys` set E (all eight subsets); ECDSA / Ed25519 re-labelled. The client is a puppet
@@ -52,13 +58,18 @@ RULE = (
     "plus RSA signatures of one hash labelled as the negotiated/declared algorithm, ECDSA/Ed25519 signatures re-labelled with every "
     "other algorithm name, and foreign key + signature for every ordered pair of the 5 key types (labelled honestly / as negotiated); role kex "
     "additionally x the exchange in which the server starts to lie (1 = initial handshake, 2, 3 = re-exchanges after honest "
-    "ones; initiators rotating over client/server in the enumeration, drawn in the repetitions); then hypothesis-drawn "
-    "repetitions varying key (rsa1024/rsa2048/rsa2048b), user name and the re-exchange history; role auth additionally x the "
+    "ones; initiators rotating over client/server in the enumeration, drawn in the repetitions), x the API the client is entered "
+    "through (classes kex:client-entry:start_client / connect-hostkey = Transport.connect(hostkey=expected key) / connect; every "
+    "own-key-type non-certificate first-exchange lie also through connect-hostkey, every fifth through connect), x an honest server "
+    "offering ONLY an algorithm the client has disabled (class kex:server-offers-only-a-disabled-algorithm[:entry]: every RSA name (+ its cert variant) x "
+    "every non-empty enabled subset lacking it, every ECDSA/Ed25519 name with all others enabled, x the three entries; expected: "
+    "no negotiation, no NEWKEYS); then hypothesis-drawn "
+    "repetitions varying key (rsa1024/rsa2048/rsa2048b), user name, the re-exchange history, the client entry and the enabled subset; role auth additionally x the "
     "connection's history: the request is sent after 0..2 earlier publickey requests (query / corrupt-signature request for the "
     "same key blob naming an enabled or the declared algorithm, or for another key): query and failed request for the same blob naming an enabled algorithm "
     "before every request whose declared algorithm is disabled, one rotating kind before the others, rotating two-request "
     "histories, drawn histories in the repetitions. non-trivial = signature "
-    "algorithm differs from the negotiated/declared one, or that one is disabled, or the request is not the connection's first; distinct by full case"
+    "algorithm differs from the negotiated/declared one, or that one is disabled (auth: declared; kex: the only one offered), or the request is not the connection's first; distinct by full case"
 )
 
 RSA = ["ssh-rsa", "rsa-sha2-256", "rsa-sha2-512"]
@@ -173,9 +184,56 @@ def _why(fam, case, alg, y, enabled):
 
 # ----------------------------------------------------------------------------- role kex
 
+ENTRIES = ["start_client", "connect-hostkey", "connect"]
+
+
+def _start_both(tc, ts, entry, expected_key, timeout=30.0):
+    """peers.start_both with the client entered through the API variant `entry`:
+    start_client(), Transport.connect(hostkey=<the key the user expects>) or Transport.connect()
+    (negotiation only, no credentials). All three are documented ways to run the key exchange."""
+    import threading
+    import time
+
+    res = {}
+
+    def srv():
+        try:
+            ev = threading.Event()
+            ts.start_server(event=ev, server=peers.OpenServer())
+            res["sev"] = ev
+        except BaseException as e:  # recorded for the caller
+            res["s"] = e
+
+    th = threading.Thread(target=srv, daemon=True)
+    th.start()
+    try:
+        if entry == "start_client":
+            tc.start_client(timeout=timeout)
+        elif entry == "connect-hostkey":
+            tc.connect(hostkey=expected_key)
+        elif entry == "connect":
+            tc.connect()
+        else:
+            raise core.HarnessError("unknown client entry %r" % (entry,))
+    except core.HarnessError:
+        raise
+    except BaseException as e:
+        res["c"] = e
+    th.join(timeout)
+    ev = res.get("sev")
+    if ev is not None and "c" not in res:
+        end = time.time() + timeout
+        while not ev.is_set() and ts.is_active() and time.time() < end:
+            ev.wait(0.05)
+        if not ts.is_active() and "s" not in res:
+            res["s"] = ts.get_exception() or EOFError("server transport inactive")
+    return res.get("c"), res.get("s")
+
 
 def run_kex(ctx, case):
     x, y, enabled = case["alg"], case["sigalg"], case["enabled"]
+    entry = case.get("entry", "start_client")
+    x_enabled = base(x) in enabled  # False: the server offers ONLY an algorithm the client has disabled
     rekeys = list(case.get("rekeys") or [])  # initiators of exchanges 2..k; the lie starts in exchange k
     k = 1 + len(rekeys)
     key = _key(case)
@@ -188,8 +246,12 @@ def run_kex(ctx, case):
         lying_key = LyingHostKey(key, y, blob, k=k, hashalg=case.get("hashalg"))
     madewith = case.get("hashalg") or y
     expect = y == base(x) and madewith == y and base(x) in enabled and not case.get("wrongtype")
-    nontriv = y != base(x) or madewith != y or bool(case.get("wrongtype"))
+    nontriv = y != base(x) or madewith != y or bool(case.get("wrongtype")) or not x_enabled
     cls = ["kex", "kex:expect-accept" if expect else "kex:expect-reject", "kex:cert" if case.get("cert") else "kex:plain", "kex:lie-from-exchange:%d" % k]
+    cls.append("kex:client-entry:" + entry)
+    if not x_enabled:
+        cls.append("kex:server-offers-only-a-disabled-algorithm")
+        cls.append("kex:server-offers-only-a-disabled-algorithm:" + entry)
     if k >= 2:
         cls.append("kex:lying-exchange-started-by:" + ("client" if rekeys[-1] == "c" else "server"))
     ctx.case(case, nontriv, cls)
@@ -200,7 +262,7 @@ def run_kex(ctx, case):
     prefix_failure = None
     res = None
     try:
-        ce, se = peers.start_both(tc, ts, timeout=30.0)
+        ce, se = _start_both(tc, ts, entry, key)
         done = bool(tc.initial_kex_done)
         negotiated = tc.host_key_type
         if k >= 2:
@@ -219,14 +281,17 @@ def run_kex(ctx, case):
         peers.shutdown(tc, ts)
         mitm.cancel_timers(tc, ts)
     c_chunks, c_epochs = list(link.ab.sent), list(tc.v_out)
-    if negotiated != x:
+    if negotiated != x and x_enabled:
         raise core.HarnessError("could not steer the negotiation to %r (got %r, client=%r server=%r)" % (x, negotiated, ce, se))
     fam = "rsa" if base(x) in RSA else "ec"
     if prefix_failure is not None:
         # exchanges 1..k-1 were answered with the genuine key and the negotiated algorithm
         ctx.violation("kex-signature-algorithm", "%s:honest-signature-rejected" % fam, case, "before the lie: " + prefix_failure)
         return False
-    if not lying_key.lied:
+    if not lying_key.lied and not x_enabled and k == 1:
+        # no common host key algorithm: the exchange ends at the KEXINITs, nobody signs anything
+        ctx.count("kex:server-offers-only-a-disabled-algorithm:" + ("refused-at-negotiation" if negotiated is None else "negotiated-%s" % negotiated))
+    elif not lying_key.lied:
         raise core.HarnessError("lying host key was never asked to sign exchange %d (client=%r server=%r rekey=%r)" % (k, ce, se, res))
     if k == 1:
         accepted = ce is None and done
@@ -246,12 +311,14 @@ def run_kex(ctx, case):
         ctx.violation("kex-signature-algorithm", "%s:honest-signature-rejected" % fam, case, outcome)
         return False
     if not expect and not rejected_cleanly:
-        why = _why(fam, case, x, y, enabled) + ("-on-rekey" if k >= 2 else "")
+        why = ("disabled-algorithm-negotiated-and-accepted" if not x_enabled else _why(fam, case, x, y, enabled)) + ("-on-rekey" if k >= 2 else "")
+        if entry != "start_client" and not x_enabled:
+            why += ":via-" + entry
         ctx.violation(
             "kex-signature-algorithm",
             "%s:%s" % (fam, why),
             case,
-            "negotiated %s, client enables %r, server labelled its signature %s (made with %s%s): %s" % (x, enabled, y, madewith, ", key " + case["wrongtype"] if case.get("wrongtype") else "", outcome),
+            "client entered through %s, server offers %s, client enables %r, server labelled its signature %s (made with %s%s): %s" % (entry, x, enabled, y, madewith, ", key " + case["wrongtype"] if case.get("wrongtype") else "", outcome),
         )
         return False
     return True
@@ -409,9 +476,10 @@ def domain():
             for y in (("rsa-sha2-256" if wx in RSA else wx), x):
                 cases.append({"role": "kex", "alg": x, "sigalg": y, "enabled": [x], "key": own, "cert": False, "wrongtype": wrong})
                 cases.append({"role": "auth", "alg": x, "sigalg": y, "enabled": list(ALLKEYALGS) if y == x else [a for a in ALLKEYALGS if a != y], "key": own, "cert": False, "wrongtype": wrong})
+    entry_domain(cases)
     # role kex: the same lies, but starting in the 2nd / 3rd exchange of the session (after honest ones)
     pats = {2: [["c"], ["s"]], 3: [["c", "s"], ["s", "c"], ["s", "s"], ["c", "c"]]}
-    for j, c in enumerate([c for c in cases if c["role"] == "kex"]):
+    for j, c in enumerate([c for c in cases if c["role"] == "kex" and not c.get("entry")]):
         for k in (2, 3):
             if k == 3 and j % 3 and not c.get("wrongtype"):
                 continue  # (third exchange: every third case; the count went to the request histories of role auth)
@@ -419,6 +487,31 @@ def domain():
     # role auth: the same requests as the 2nd / 3rd request of a connection
     cases += history_domain(cases)
     return cases
+
+
+def entry_domain(cases):
+    """Role kex x the API the client is entered through (start_client / Transport.connect(hostkey=expected key) /
+    Transport.connect()) x an honest server that offers ONLY a host key algorithm the client has disabled
+    (every RSA name - and, through start_client, its certificate variant - against every non-empty enabled subset
+    that lacks it; every ECDSA / Ed25519 name with all other algorithms enabled): nothing may be negotiated, let alone accepted. Plus every non-certificate
+    first-exchange lie of the domain above (own key type) entered through connect(hostkey=...) as well (appended to `cases`)."""
+    lies = [c for c in cases if c["role"] == "kex" and not c.get("cert") and not c.get("wrongtype") and (c["sigalg"] != base(c["alg"]) or c.get("hashalg"))]
+    for j, c in enumerate(lies):
+        cases.append(dict(c, entry="connect-hostkey"))
+        if j % 5 == 0:
+            cases.append(dict(c, entry="connect"))
+    for entry in ENTRIES:
+        for x in RSA:
+            for e in subsets(RSA):
+                if e and x not in e:
+                    cases.append({"role": "kex", "alg": x, "sigalg": x, "enabled": e, "key": "rsa2048", "cert": False, "entry": entry})
+                    if entry == "start_client":  # the certificate variant of a disabled algorithm is disabled with it
+                        cases.append({"role": "kex", "alg": x + CERT, "sigalg": x, "enabled": e, "key": "rsa2048", "cert": True, "entry": entry})
+        for x, kname in EC.items():
+            cases.append({"role": "kex", "alg": x, "sigalg": x, "enabled": [a for a in ALLKEYALGS if a != x], "key": kname, "cert": False, "entry": entry})
+        # honest control per entry: the algorithm is enabled, the signature genuine
+        cases.append({"role": "kex", "alg": "rsa-sha2-256", "sigalg": "rsa-sha2-256", "enabled": ["rsa-sha2-256", "rsa-sha2-512"], "key": "rsa2048", "cert": False, "entry": entry})
+        cases.append({"role": "kex", "alg": "ssh-ed25519", "sigalg": "ssh-ed25519", "enabled": ["ssh-ed25519", "ssh-rsa"], "key": "ed25519", "cert": False, "entry": entry})
 
 
 # ---- histories on one connection (role auth)
@@ -492,7 +585,9 @@ def _dispatch(ctx, case):
 
 
 def run(ctx):
-    ctx.set_budget(80, 600)
+    # (VERIF_BUDGET_SCALE: validation runs on an oversubscribed machine may stretch the wall-clock safety net; never part of a verdict)
+    _bs = max(1.0, float(__import__("os").environ.get("VERIF_BUDGET_SCALE", "1") or 1))
+    ctx.set_budget(80 * _bs, 600 * _bs)
     dom = domain()
     mine = [c for i, c in enumerate(dom) if i % ctx.nworkers == ctx.worker]
     for c in mine:
@@ -510,6 +605,8 @@ def run(ctx):
         st.text(alphabet="abcxyz-_.0123456789é", min_size=1, max_size=12),
         st.lists(st.sampled_from(["c", "s"]), min_size=0, max_size=2),
         st.lists(st.sampled_from(HISTORY_KINDS), min_size=0, max_size=2),
+        st.sampled_from(ENTRIES),
+        st.sampled_from([None, None] + [s_ for s_ in subsets(RSA) if s_]),
     )
 
     def body(t):
@@ -519,11 +616,18 @@ def run(ctx):
             c["user"] = t[2]
             if t[4]:
                 c = with_history(c, t[4])
-        elif t[3]:
-            c["rekeys"] = list(t[3])
+        else:
+            c["entry"] = t[5]
+            if t[6] is not None and not c.get("hashalg"):
+                # another enabled subset; if it lacks the offered algorithm the server is an honest one
+                c["enabled"] = list(t[6])
+                if c["alg"] not in c["enabled"]:
+                    c["sigalg"] = c["alg"]
+            if t[3] and c["alg"] in c["enabled"]:
+                c["rekeys"] = list(t[3])
         _dispatch(ctx, c)
 
-    ctx.explore(gen, body, ctx.scale(60, 3000), shrink=False)
+    ctx.explore(gen, body, ctx.scale(40, 3000), shrink=False)
 
 
 def replay(ctx, case):
